@@ -108,6 +108,7 @@ func corpusCases() []*c20Case {
 		mk("NSX", "target rule names device-only group", nsxConf(nsxGroup("Netspoc-g1", `"10.1.1.1"`), nsxRule("r1", g+"Netspoc-g1")),
 			map[string]string{"code/router": nsxConf("", nsxRule("r1", g+"Netspoc-g1"))}),
 		mk("IOS", "garbage info file", "", map[string]string{"code/router": "", "code/router.info": "NO_JSON\n"}),
+		mk("IOS", "garbage info file, opening brace", "", map[string]string{"code/router": "", "code/router.info": "{garbage"}),
 		mk("IOS", "info file null", "", map[string]string{"code/router": "", "code/router.info": "null"}),
 		mk("PAN-OS", "empty <devices> plus raw vsys", "", map[string]string{"code/router": "<config><devices></devices></config>",
 			"code/router.raw": `<config><devices><entry name="x"><vsys><entry name="vsys1"></entry></vsys></entry></devices></config>`}),
